@@ -320,6 +320,7 @@ func init() {
 		// ---------------- ReadWithDirectory
 		rwL := map[string]string{"size": "size", "len(cd)": "cd_len", "binary.LittleEndian.Uint32(cd)": "sig",
 			"f.UncompressedSize": "usize", "f.CompressedSize": "csize", "f.Offset": "offset",
+			"hdr.FilenameLen": "nlen", "hdr.ExtraLen": "elen", "hdr.CommentLen": "clen",
 			"len(extra)": "extra_len", "tag": "tag", "needed": "needed", "needUSize": "need_u", "needCSize": "need_c", "needOffset": "need_o"}
 		rwT := map[string]string{"needUSize": "bool", "needCSize": "bool", "needOffset": "bool"}
 		rw := func(coq, params, ret string) funcSpec {
@@ -327,6 +328,11 @@ func init() {
 		}
 		o.exprOfAssign(rw("rwd_dirloc", "(size cd_len : Z)", "Z"), "dirLoc", 0)
 		o.condOf(rw("rwd_not_cd_sig", "(sig : Z)", "bool"), "if:directoryHeaderSignature")
+		o.condOf(rw("rwd_cd_short", "(cd_len : Z)", "bool"), "if:len(cd) < 4")
+		o.condOf(rw("rwd_hdr_short", "(cd_len : Z)", "bool"), "if:len(cd) < directoryHeaderLen", 0)
+		o.condOf(rw("rwd_ent_short", "(cd_len nlen elen clen : Z)", "bool"), "if:len(cd) < directoryHeaderLen", 1)
+		o.condOf(funcSpec{dir: d, name: "Read", coqName: "rz_oob", params: "(loc size : Z)", retType: "bool",
+			leaves: map[string]string{"loc": "loc", "size": "size"}}, "if:loc < 0")
 		o.exprOfAssign(rw("rwd_need_u", "(usize : Z)", "bool"), "needUSize", 0)
 		o.exprOfAssign(rw("rwd_need_c", "(csize : Z)", "bool"), "needCSize", 0)
 		o.exprOfAssign(rw("rwd_need_o", "(offset : Z)", "bool"), "needOffset", 0)
